@@ -4,6 +4,7 @@ import FeatModel.Model.Solver.RatVec
 import FeatModel.Lemmas.C07Krylov
 import FeatModel.Lemmas.C07Krylov2
 import FeatModel.Lemmas.C07CG
+import FeatModel.Lemmas.C07Rgcr
 /-! Helper lemmas for C07: the instance the driver executes (`Vector Rat n`, dense matrix, unit-filter mask, arbitrary
     preconditioner) satisfies the linear-algebra laws `Lawful`; the fast square root equals `Nat.sqrt`. -/
 namespace FeatModel.Solver
@@ -177,6 +178,27 @@ theorem ratSys_cgLaws {n : Nat} (A : RMat n) (hs : ∀ (i j : Fin n), A[i][j] = 
     show precOf _ none k v = some v
     simp only [precOf, maskF_none]
   m_sym := fun _ _ => rfl
+
+theorem ratSys_lawfulRgcr {n : Nat} (A : RMat n) (mask : Vector Bool n) (pre : Option (RMat n × Nat)) :
+    LawfulRgcr (ratSys A mask pre) := by
+  refine ⟨ratSys_lawful A mask pre, ?_, ?_⟩
+  · intro x p a
+    show maskF mask (matVec A (vaxpy x p a)) = vaxpy (maskF mask (matVec A x)) (maskF mask (matVec A p)) a
+    apply Vector.ext
+    intro i hi
+    rw [getElem_maskF, getElem_matVec, vdot_axpy, getElem_vaxpy, getElem_maskF, getElem_maskF, getElem_matVec,
+      getElem_matVec]
+    split <;> ring
+  · intro x a
+    show maskF mask (matVec A (vscale x a)) = vscale (maskF mask (matVec A x)) a
+    apply Vector.ext
+    intro i hi
+    rw [getElem_maskF, getElem_matVec, vdot_scale, getElem_vscale, getElem_maskF, getElem_matVec]
+    split <;> ring
+
+theorem ratSysF_lawfulRgcr {n : Nat} (A : RMat n) (mask : Vector Bool n) (k : FeatPre) (w : Rat) :
+    LawfulRgcr (ratSysF A mask k w) :=
+  ⟨ratSysF_lawful A mask k w, (ratSys_lawfulRgcr A mask none).lin_axpy, (ratSys_lawfulRgcr A mask none).lin_scale⟩
 
 theorem fastSqrt_eq (m : Nat) : fastSqrt m = Nat.sqrt m := by
   simp only [fastSqrt]
